@@ -372,7 +372,8 @@ struct World : CallbackSink
 		int cbid = nextCb++;
 		// configurations with a comparable Callback: now and then add a callback EQUAL to one already in the list
 		// (the eventutil helpers speak of "the first equal callback")
-		if(Cfg::hasEq && ! lists[li].order.empty() && rng.chance(1, 6)) { cbid = nodes[pickLive(li)].cbid; count("duplicate_callbacks_added"); }
+		// (not in the modes that wrap the generation counter: a relaxed frame identifies callbacks by id only and could not tell the twins apart)
+		if(Cfg::hasEq && ! mode.wrap && ! lists[li].order.empty() && rng.chance(1, 6)) { cbid = nodes[pickLive(li)].cbid; count("duplicate_callbacks_added"); }
 		TCallback cb(cbid);
 		int before = -1;
 		if(k == OP_INSERT) before = pickHandle(li, false);
